@@ -597,7 +597,8 @@ func c20Gen(rng *proto.Rng, maxGroups, maxIds int) c20In {
 			pos := initAt + 1 + rng.Intn(len(in.Events)-initAt)
 			id := proto.Pick(rng, ids)
 			se := c20Ev{T: "status", ID: &id, St: proto.Pick(rng, c20Kstatus),
-				M: proto.Pick(rng, []string{"", "Deployment is available. Replicas: 1", "resource \"x\" not found", "Rollout 50% done (%d/%d)"})}
+				M: proto.Pick(rng, []string{"", "Deployment is available. Replicas: 1", "resource \"x\" not found", "Rollout 50% done (%d/%d)",
+					"colour \x1b[31mred\x1b[0m", "tab\tvt\vbell\a", "del\x7f", "tag \U000e0041", "line1\nline2 <b>&amp;</b> \u2028"})}
 			in.Events = append(in.Events[:pos], append([]c20Ev{se}, in.Events[pos:]...)...)
 		}
 	}
